@@ -8,9 +8,13 @@ E12 TypedTool (C16) — the Go side of a typed tool, as far as the property can 
   numbers become float64 (`applySchema` with fixes/F09).
   A float64 is printed by Go with the shortest digit string that reads back to the same float64.
 * `GoTy`, `project`: the ideal `encoding/json` round trip `JSON → value of a Go type → JSON` for the type
-  family compiled into the harness (int64, float64, string, bool, any, pointers, slices, string-keyed
-  maps, structs with `omitempty`): this is "the JVal the handler observes, re-encoded from its typed
-  input". Integers are exact in int64 fields; `any`/float64 fields hold float64s by the type's choice.
+  family compiled into the harness (int64, uint64, float64, string, bool, any, pointers, slices,
+  string-keyed maps, structs with `omitempty`): this is "the JVal the handler observes, re-encoded from
+  its typed input". Integers are exact in int64 fields ([-2^63, 2^63)) and in uint64 fields ([0, 2^64));
+  `any`/float64 fields hold float64s by the type's choice.
+* `lossy63`: the decode that keeps only int64 exact (integers in [2^63, 2^64) become float64) — NOT what
+  the wrapper does; only used for the counter-example `signed_only_decode_counterexample` (why the
+  unsigned half of the exact range is part of C16).
 
 Core Lean only.
 -/
@@ -87,15 +91,25 @@ def mapNumFields (f : Dec → Dec) : Fields → Fields
   | (k, v) :: t => (k, mapNum f v) :: mapNumFields f t
 end
 
+/-- int64 for plain integers in [-2^63, 2^63), float64 otherwise: a decode with `UseInt64` but without
+`UseUint64`. Not the wrapper's; see `lossy63`. -/
+def i63Dec (d : Dec) : Dec :=
+  if d.isInt then
+    let n := d.toInt
+    if -two63 ≤ n ∧ n < two63 then .ofInt n else f64Dec d
+  else d
+
 /-- unrepaired `applySchema`: every number goes through float64 (F9) -/
 def lossy53 : JVal → JVal := mapNum f64Dec
 /-- `applySchema` with fixes/F09: integers in [-2^63, 2^64) are exact -/
 def lossy64 : JVal → JVal := mapNum i64Dec
+/-- a decode that keeps int64 exact but sends [2^63, 2^64) through float64 (counter-example only) -/
+def lossy63 : JVal → JVal := mapNum i63Dec
 
 /-! ### the Go type family -/
 
 inductive GoTy where
-  | int64 | float64 | string | bool | any
+  | int64 | uint64 | float64 | string | bool | any
   | ptr (t : GoTy)
   | slice (t : GoTy)
   | map (t : GoTy)                                   -- map[string]T
@@ -105,6 +119,7 @@ deriving Inhabited
 /-- is the encoded value "empty" for `omitempty` at this type? -/
 def isEmptyGo : GoTy → JVal → Bool
   | .int64, .num d => d.m == 0
+  | .uint64, .num d => d.m == 0
   | .float64, .num d => d.m == 0
   | .string, .str s => s.isEmpty
   | .bool, .bool b => !b
@@ -120,6 +135,7 @@ mutual
 /-- JSON of the zero value -/
 def zeroJ : GoTy → JVal
   | .int64 => .num (.ofInt 0)
+  | .uint64 => .num (.ofInt 0)
   | .float64 => .num (.ofInt 0)
   | .string => .str ""
   | .bool => .bool false
@@ -136,6 +152,7 @@ def zeroFields : List (String × Bool × GoTy) → Fields
 end
 
 def inInt64 (d : Dec) : Bool := d.isInt && decide (-two63 ≤ d.toInt) && decide (d.toInt < two63)
+def inUint64 (d : Dec) : Bool := d.isInt && decide (0 ≤ d.toInt) && decide (d.toInt < two64)
 
 /-- all-or-nothing over a list of optional results -/
 def optAll {α : Type} : List (Option α) → Option (List α)
@@ -153,6 +170,9 @@ def project : GoTy → JVal → Option JVal
   | .int64, .num d => if inInt64 d then some (.num (.ofInt d.toInt)) else none
   | .int64, .null => some (.num (.ofInt 0))
   | .int64, _ => none
+  | .uint64, .num d => if inUint64 d then some (.num (.ofInt d.toInt)) else none
+  | .uint64, .null => some (.num (.ofInt 0))
+  | .uint64, _ => none
   | .float64, .num d => some (.num (f64Dec d))
   | .float64, .null => some (.num (.ofInt 0))
   | .float64, _ => none
